@@ -61,3 +61,31 @@ def C19(sc, tier, replay, t0):
                      "Go map iteration order is not controllable: the per-draw selection oracle accepts the choice of any iteration order; the r=0 draw is repeated 24x on fresh maps",
                      "history length and announcement-set size bounds as in sub_checks.bounds"],
         trusted_base=MC_ASSUME + ["in-package export file overlay/d2/verif_export.go (forwards only)", "scripted rand.Source"])
+
+
+def simple_check(prop, harness, level, rule, assumptions, trusted, gens=("v2", "root"), deadline_q=600, deadline_t=3000,
+                 overlay_fn=None, extra_args=(), shards=None):
+    def fn(sc, tier, replay, t0):
+        reports = []
+        gl = list(gens) if not replay else [replay_gen(replay)]
+        for gen in gl:
+            mod = D.make_module(sc, gen, harness)
+            ov = overlay_fn(sc, gen) if overlay_fn else None
+            binary = D.go_build(mod, os.path.join(mod, "h"), overlay=ov)
+            if replay:
+                return replay_run(binary, gen, replay, extra_args)
+            n = shards or max(1, D.NCPU // len(gl))
+            reports += D.run_shards(binary, gen, tier, n, os.path.join(sc.dir, "out"), extra_args=extra_args,
+                                    deadline=(deadline_t if tier == "thorough" else deadline_q))
+        merged = D.merge_reports(reports)
+        return D.finish(prop, tier, level, merged, t0, rule=rule, assumptions=assumptions, trusted_base=MC_ASSUME + trusted)
+    return fn
+
+
+C20 = simple_check("C20", "c20", "model_checking",
+    rule="every directory tree of the bounded grammar (file kinds G=x.gr.go, M=manifest, U=user.go, N=notes.txt, B=y.gr.go.bak; sub-directories as multisets of smaller trees; budgets per level in sub_checks.bounds) is materialised on tmpfs, cleaned with the real CleanTargetDir, compared with a set-based reference model, and cleaned again (idempotence); states = trees, transitions = CleanTargetDir calls; a class is (target mode, removal outcome)",
+    assumptions=["entry kinds are regular files and directories (no symlinks, no unreadable directories)",
+                 "a manifest file in a nested directory is don't-care (the statement does not say whose manifest it is)",
+                 "directories that held no file at all before cleaning are don't-care (the pinned test removes them)",
+                 "regeneration after cleaning is checked by C12's generator runs, not here"],
+    trusted=["tmpfs file system semantics", "refclean model in harness/c20"])
